@@ -43,6 +43,7 @@ LEVEL_TEXT = (
     "from batchie code - the latter decides independence from *any* interleaving, not just the enumerated ones."
 )
 RULE = (
+    "operation objects reused along every call history of length <= 3 over 3 (seed, input) letters (last call compared with a fresh object); "
     "operations (4 generators, 6 smoothers, sparse cover, 2 hold-outs, RandomScorer via score_chunk, DBAL triple sub-sampling, "
     "policy selection, sampling.sample with both MCMC models, 5 CLI mains with --seed) x inputs x seeds x schedules "
     "(global seed, number of injected global draws); non-trivial = the operation consumed randomness (its output "
@@ -401,6 +402,100 @@ def operations(tier):
     return ops
 
 
+# ------------------------------------------------------------------ reuse histories
+# Operation objects (generators, smoothers, scorers, the policy) are plain parameter
+# holders: calling one again - after any earlier calls with other seeds / inputs - with
+# identical inputs and an identically seeded generator must give the output a fresh
+# object gives.  Histories: every sequence of <= 3 calls over a 3-letter alphabet of
+# (seed, input) pairs; the last call is compared with a fresh object.
+REUSE_ALPHABET = [(0, 0), (1, 0), (0, 1)]
+
+
+def _call_generator(obj, seed, variant):
+    return _snap(obj.generate_plates(input_screen(variant), np.random.default_rng(seed)))
+
+
+def _call_smoother(obj, seed, variant):
+    return _snap(obj.smooth_plates(input_screen(variant), np.random.default_rng(seed)))
+
+
+def _call_cover(obj, seed, variant):
+    return _snap(obj.generate_and_unmask_initial_plate(input_screen(variant, all_observed=True), np.random.default_rng(seed)))
+
+
+def _call_scorer(obj, seed, variant):
+    screen = input_screen(variant)
+    es = ExperimentSpace.from_screen(screen)
+    h_ = score_chunk(obj, _thetas(5, es.n_unique_samples, es.n_unique_treatments), screen, _dist(5), rng=np.random.default_rng(seed),
+                     n_chunks=1, chunk_index=0)
+    return (h_.plate_ids.tobytes(), h_.scores.tobytes())
+
+
+def _call_policy(obj, seed, variant):
+    screen = input_screen(1)
+    un = [int(p.plate_id) for p in screen.plates if not p.is_observed]
+    h_ = ChunkedScoresHolder(len(un))
+    for i, p in enumerate(un):
+        h_.add_score(p, float((i * 7 + variant) % 3))
+    plate = select_next_plate(h_, screen, obj, batch_plate_ids=[un[0]] if variant else [], rng=np.random.default_rng(seed))
+    return None if plate is None else int(plate.plate_id)
+
+
+def reuse_operations():
+    from batchie.scoring.gaussian_dbal import GaussianDBALScorer
+    from batchie.scoring.size import SizeScorer
+
+    return {
+        "reuse:GaussianDBALScorer(max_triples=4)": (lambda: GaussianDBALScorer(max_triples=4), _call_scorer),
+        "reuse:GaussianDBALScorer(max_triples=4,max_chunk=1)": (lambda: GaussianDBALScorer(max_triples=4, max_chunk=1), _call_scorer),
+        "reuse:RandomScorer": (RandomScorer, _call_scorer),
+        "reuse:SizeScorer": (SizeScorer, _call_scorer),
+        "reuse:PairwisePlateGenerator(1,0)": (lambda: R.PairwisePlateGenerator(subset_size=1, anchor_size=0), _call_generator),
+        "reuse:PlatePermutationPlateGenerator": (lambda: R.PlatePermutationPlateGenerator(), _call_generator),
+        "reuse:SampleSegregatingPermutationPlateGenerator(2)": (lambda: R.SampleSegregatingPermutationPlateGenerator(max_plate_size=2), _call_generator),
+        "reuse:FixedSizeSmoother(1)": (lambda: R.FixedSizeSmoother(plate_size=1), _call_smoother),
+        "reuse:OptimalSizeSmoother": (lambda: R.OptimalSizeSmoother(), _call_smoother),
+        "reuse:MergeMinPlateSmoother(2)": (lambda: R.MergeMinPlateSmoother(min_size=2), _call_smoother),
+        "reuse:MergeTopBottomPlateSmoother(1)": (lambda: R.MergeTopBottomPlateSmoother(n_iterations=1), _call_smoother),
+        "reuse:NPlatePerCellLineSmoother(1)": (lambda: R.NPlatePerCellLineSmoother(min_n_cell_line_plates=1), _call_smoother),
+        "reuse:BatchieEnsemblePlateSmoother(2,1,1)": (lambda: R.BatchieEnsemblePlateSmoother(min_size=2, n_iterations=1, min_n_cell_line_plates=1), _call_smoother),
+        "reuse:SparseCoverPlateGenerator": (lambda: R.SparseCoverPlateGenerator(reveal_single_treatment_experiments=False), _call_cover),
+        "reuse:KPerSamplePlatePolicy(1)": (lambda: KPerSamplePlatePolicy(k=1), _call_policy),
+    }
+
+
+def run_reuse(item, col, tier):
+    import itertools
+
+    make, call = reuse_operations()[item["op"]]
+    fresh = {}
+    for a_ in REUSE_ALPHABET:
+        with Tripwire() as tw:
+            fresh[a_] = digest(call(make(), a_[0], a_[1]))
+        for site, label in sorted(set(tw.hits)):
+            col.violation(f"C18|callsite|{site}|{label}", f"{item['op']}: batchie code at {site} calls the process-global {label}",
+                          {"reuse": item["op"], "history": [list(a_)]})
+        col.evaluations += 1
+    col.outcome(item["op"], tuple(sorted(fresh.items())))
+    depth = 3 if tier == "thorough" or not item["op"].startswith("reuse:Batchie") else 2
+    for n in range(2, depth + 1):
+        for hist in itertools.product(REUSE_ALPHABET, repeat=n):
+            obj = make()
+            out = None
+            for (seed, variant) in hist:
+                out = digest(call(obj, seed, variant))
+                col.evaluations += 1
+                col.transitions += 1
+            col.states += 1
+            if len(set(hist)) > 1:
+                col.nontriv(item["op"], hist)
+            if out != fresh[hist[-1]]:
+                col.violation(f"C18|history-dependent|{item['op']}",
+                              f"{item['op']}: after the calls {list(hist[:-1])} (seed, input) on the same object, the call {hist[-1]} gives a different "
+                              f"output than the same call on a fresh object", {"reuse": item["op"], "history": [list(h_) for h_ in hist]})
+    col.sample({"reuse": item["op"], "alphabet(seed,input)": REUSE_ALPHABET, "history_depth": depth})
+
+
 # operations whose output legitimately does not depend on the seed (no randomness consumed)
 def plan(tier, seed):
     b = BOUNDS[tier]
@@ -408,6 +503,8 @@ def plan(tier, seed):
     for name in operations(tier):
         for variant in range(b["inputs_per_operation"]):
             items.append({"op": name, "variant": variant})
+    for name in reuse_operations():
+        items.append({"op": name, "reuse": True})
     return items
 
 
@@ -433,6 +530,9 @@ def one_run(fn, seed, variant, gseed, k, tmp):
 
 
 def run_item(item, col, tier):
+    if item.get("reuse"):
+        run_reuse(item, col, tier)
+        return
     b = BOUNDS[tier]
     fn = operations(tier)[item["op"]]
     tmp = env.scratch_dir("c18")
@@ -486,6 +586,18 @@ def run_item(item, col, tier):
 
 
 def replay(case, col):
+    if "reuse" in case:
+        make, call = reuse_operations()[case["reuse"]]
+        hist = [tuple(h_) for h_ in case["history"]]
+        obj = make()
+        out = None
+        for seed, variant in hist:
+            out = digest(call(obj, seed, variant))
+        ref = digest(call(make(), hist[-1][0], hist[-1][1]))
+        col.evaluations += 1
+        if out != ref:
+            col.violation(f"C18|history-dependent|{case['reuse']}", f"after {hist[:-1]} the call {hist[-1]} differs from a fresh object's", case)
+        return
     fn = operations("thorough")[case["op"]]
     tmp = env.scratch_dir("c18r")
     try:
